@@ -1598,4 +1598,409 @@ example :
     c.hasIntArr = true ∧ (pd2npCall [] c).hasIntArr = false := by
   decide +kernel
 
+
+/-! ## round k6: histories that start from a NON-EMPTY cache -/
+
+/-- the dict `d` of a cache layer holds results of `g`: its keys are distinct, they are the keys of the calls `seen0`, and under
+each key it stores `g` of the FIRST call of `seen0` with that key -/
+def CacheHolds (g : Call → Val) (d : List (Val × Val)) (seen0 : List Call) : Prop :=
+  CacheInv g { cache := d, evals := d.map (·.1) } seen0
+
+/-- the empty dict -/
+theorem cacheHolds_empty (g : Call → Val) : CacheHolds g [] [] :=
+  ⟨rfl, by simp, by simp, by intro k v h; simp at h⟩
+
+/-- a dict written entry by entry from calls with pairwise different keys -/
+theorem cacheHolds_of_entries (g : Call → Val) (cs : List Call) (hn : (cs.map callKey).Nodup) :
+    CacheHolds g (cs.map fun c => (callKey c, g c)) cs := by
+  refine ⟨rfl, by simpa [List.map_map, Function.comp_def] using hn, by intro k; simp [List.map_map, Function.comp_def], ?_⟩
+  intro k v h
+  induction cs with
+  | nil => simp at h
+  | cons c cs ih =>
+    simp only [List.map_cons, List.nodup_cons] at hn
+    simp only [List.map_cons, List.lookup_cons] at h
+    by_cases hk : k = callKey c
+    · subst hk
+      simp only [beq_self_eq_true] at h
+      cases h
+      exact ⟨c, by simp [firstWith], rfl⟩
+    · have hb : (k == callKey c) = false := by simpa using hk
+      rw [hb] at h
+      obtain ⟨c0, h0, hv⟩ := ih hn.2 h
+      refine ⟨c0, ?_, hv⟩
+      simp only [firstWith, List.find?_cons] at h0 ⊢
+      have : (callKey c == k) = false := by simpa using fun e => hk e.symm
+      rw [this]; exact h0
+
+/-- what a history of calls of a non-raising function leaves in the dict, from the empty dict -/
+theorem cacheHolds_of_runCache (g : Call → Val) (pre0 : List Call) :
+    CacheHolds g (runCache (fun c => .ok (g c)) {} pre0).1.cache pre0 := by
+  have inv0 : CacheInv g {} [] := ⟨rfl, by simp, by simp, by intro k v h; simp at h⟩
+  obtain ⟨inv, _⟩ := runCache_inv g pre0 {} [] inv0
+  simp only [List.nil_append] at inv
+  exact ⟨rfl, inv.nodup, inv.keys, inv.first⟩
+
+/-- **The bare cache from ANY dict that holds results of `g`** (`cache_once_per_combination` is the case of the empty dict):
+the calls `seen0` behind the stored entries count as earlier calls. -/
+theorem cache_once_per_combination_from (g : Call → Val) (st : CacheSt) (seen0 pre : List Call) (c : Call)
+    (inv : CacheInv g st seen0) (hok : ∀ x ∈ seen0 ++ pre, Call.ok x) (hc : Call.ok c) :
+    let hist := seen0 ++ pre
+    let r := runCache (fun c => .ok (g c)) st pre
+    let r' := runCache (fun c => .ok (g c)) st (pre ++ [c])
+    r'.2 = r.2 ++ [r'.2.getLast?.getD (.ok (g c))] ∧
+    ((∀ x ∈ hist, ¬ sameComb x c) →
+      r'.1.evals.length = r.1.evals.length + 1 ∧ r'.2.getLast? = some (.ok (g c))) ∧
+    ((∃ x ∈ hist, sameComb x c) →
+      r'.1.evals.length = r.1.evals.length ∧
+      ∃ pre1 c0 pre2, hist = pre1 ++ c0 :: pre2 ∧ sameComb c0 c ∧ (∀ x ∈ pre1, ¬ sameComb x c) ∧
+        r'.2.getLast? = some (.ok (g c0))) := by
+  obtain ⟨inv, _⟩ := runCache_inv g pre st seen0 inv
+  have happ := runCache_append (fun c => Except.ok (g c)) st pre [c]
+  simp only [runCache] at happ
+  intro hist r r'
+  have hkey : ∀ x ∈ hist, (callKey x = callKey c ↔ sameComb x c) := fun x hx => callKey_eq_iff x c (hok x hx) hc
+  have hr' : r' = ((cacheCall (fun c => .ok (g c)) r.1 c).1, r.2 ++ [(cacheCall (fun c => .ok (g c)) r.1 c).2]) := happ
+  cases hl : r.1.cache.lookup (callKey c) with
+  | some v =>
+    obtain ⟨c0, hc0, hv⟩ := inv.first _ v hl
+    have hcc := cacheCall_hit (fun c => Except.ok (g c)) r.1 c v hl
+    rw [hcc] at hr'
+    have hin : ∃ x ∈ hist, sameComb x c := by
+      simp only [firstWith] at hc0
+      have := List.mem_of_find?_eq_some hc0
+      have hp := List.find?_some hc0
+      exact ⟨c0, this, (hkey c0 this).1 (by simpa using hp)⟩
+    refine ⟨by rw [hr']; simp, fun hno => ?_, fun _ => ?_⟩
+    · obtain ⟨x, hx, hs⟩ := hin
+      exact absurd hs (hno x hx)
+    · refine ⟨by rw [hr'], ?_⟩
+      simp only [firstWith] at hc0
+      obtain ⟨hp, pre1, pre2, hsplit, hbefore⟩ := List.find?_eq_some_iff_append.1 hc0
+      have hmem0 : c0 ∈ hist := by show c0 ∈ seen0 ++ pre; rw [hsplit]; simp
+      refine ⟨pre1, c0, pre2, hsplit, (hkey c0 hmem0).1 (by simpa using hp), fun x hx hs => ?_, ?_⟩
+      · have hxm : x ∈ hist := by show x ∈ seen0 ++ pre; rw [hsplit]; simp [hx]
+        have := hbefore x hx
+        exact absurd ((hkey x hxm).2 hs) (by simpa using this)
+      · rw [hr', hv]; simp
+  | none =>
+    have hcc := cacheCall_miss g r.1 c hl
+    rw [hcc] at hr'
+    have hnot : callKey c ∉ hist.map callKey := by
+      rw [← inv.keys]; exact (lookup_none_iff_not_mem _ _).1 hl
+    refine ⟨by rw [hr']; simp, fun _ => ⟨by rw [hr']; simp, by rw [hr']; simp⟩, fun ⟨x, hx, hs⟩ => ?_⟩
+    exact absurd (List.mem_map.2 ⟨x, hx, (hkey x hx).2 hs⟩) hnot
+
+
+/-- **A stack with a cache layer, from ANY state whose dict holds results of `f`** - the dict a `cache_func` constructor took
+over from the wrapper it unwrapped, filled through another stack (`stack_cache_history_rewrapped`), a dict handed in by the
+caller (`cache_func(f, cache = d)`), the state after an earlier part of the history.  `seen0` are the calls behind the stored
+entries (as the cache layer that stored them received them); they count as earlier calls:
+* no call of `seen0` and no earlier call of the history is the same combination: one more execution, the reply is `f c`;
+* otherwise no execution and the reply is the stored result of the FIRST such call (`resultOf s body c0` = what `f` returns on it). -/
+theorem stack_cache_history_from (s : Sig) (body : PDict → Res Val) (unh : Call → Bool) (p : PDict)
+    (above below : List (Cls × PDict)) (ha : noCache above) (hb : noCache below)
+    (st0 : HSt) (seen0 : List Call) (h0 : CacheHolds (resultOf s body) st0.cache seen0) (hok0 : ∀ x ∈ seen0, Call.ok x)
+    (pre : List Call) (c : Call)
+    (hpre : ∀ x ∈ pre, HistCallFor (classes (above ++ (Cls.cache, p) :: below)) s body unh above x)
+    (hc : HistCallFor (classes (above ++ (Cls.cache, p) :: below)) s body unh above c) :
+    let chain := above ++ (Cls.cache, p) :: below
+    let seen := reach s above
+    let hist := seen0 ++ pre.map seen
+    let r := runH s body unh chain st0 pre
+    let r' := runH s body unh chain st0 (pre ++ [c])
+    r'.2 = r.2 ++ [r'.2.getLast?.getD (applyFn s body c)] ∧
+    ((∀ y ∈ hist, ¬ sameComb y (seen c)) →
+      r'.1.evals.length = r.1.evals.length + 1 ∧ r'.2.getLast? = some (applyFn s body c)) ∧
+    ((∃ y ∈ hist, sameComb y (seen c)) →
+      r'.1.evals.length = r.1.evals.length ∧
+      ∃ h1 y0 h2, hist = h1 ++ y0 :: h2 ∧ sameComb y0 (seen c) ∧
+        (∀ y ∈ h1, ¬ sameComb y (seen c)) ∧ r'.2.getLast? = some (.ok (resultOf s body y0))) := by
+  intro chain seen hist r r'
+  have hKa : Within (classes (above ++ (Cls.cache, p) :: below)) above :=
+    fun w hw => within_classes _ w (by simp [hw])
+  have hKb : Within (classes (above ++ (Cls.cache, p) :: below)) below :=
+    fun w hw => within_classes _ w (by simp [hw])
+  have hv : ∀ x ∈ pre, (∃ v, ValidFor (classes (above ++ (Cls.cache, p) :: below)) s body x v) ∧
+      unh (reach s above x) = false :=
+    fun x hx => ⟨(hpre x hx).1, (hpre x hx).2.1⟩
+  have hv' : ∀ x ∈ pre ++ [c], (∃ v, ValidFor (classes (above ++ (Cls.cache, p) :: below)) s body x v) ∧
+      unh (reach s above x) = false := by
+    intro x hx
+    rcases List.mem_append.1 hx with hx | hx
+    · exact hv x hx
+    · simp only [List.mem_singleton] at hx; subst hx; exact ⟨hc.1, hc.2.1⟩
+  let cst0 : CacheSt := { cache := st0.cache, evals := st0.cache.map (·.1) }
+  obtain ⟨_, hr2, hr3⟩ := runH_refines_for _ s body unh p above below ha hb hKa hKb pre st0 cst0 rfl hv
+  obtain ⟨_, hr2', hr3'⟩ := runH_refines_for _ s body unh p above below ha hb hKa hKb (pre ++ [c]) st0 cst0 rfl hv'
+  rw [List.map_append, List.map_cons, List.map_nil] at hr2' hr3'
+  have hres : ∀ x, (∃ v, ValidFor (classes (above ++ (Cls.cache, p) :: below)) s body x v) →
+      Except.ok (resultOf s body (seen x)) = applyFn s body x := by
+    rintro x ⟨v, h⟩
+    rw [(ValidFor.reach above hKa h).resultOf_eq, h.ok]
+  obtain ⟨h1, h2, h3⟩ := cache_once_per_combination_from (resultOf s body) cst0 seen0 (pre.map seen) (seen c) h0
+    (by
+      intro y hy
+      rcases List.mem_append.1 hy with hy | hy
+      · exact hok0 y hy
+      · obtain ⟨x, hx, rfl⟩ := List.mem_map.1 hy; exact (hpre x hx).2.2) hc.2.2
+  have e2 : r.2 = (runCache (fun c => Except.ok (resultOf s body c)) cst0 (List.map seen pre)).2 := hr2
+  have e2' : r'.2 = (runCache (fun c => Except.ok (resultOf s body c)) cst0 (List.map seen pre ++ [seen c])).2 := hr2'
+  have e3 : r.1.evals.length + cst0.evals.length = st0.evals.length +
+      (runCache (fun c => Except.ok (resultOf s body c)) cst0 (List.map seen pre)).1.evals.length := hr3
+  have e3' : r'.1.evals.length + cst0.evals.length = st0.evals.length +
+      (runCache (fun c => Except.ok (resultOf s body c)) cst0 (List.map seen pre ++ [seen c])).1.evals.length := hr3'
+  refine ⟨?_, fun hno => ?_, fun hex => ?_⟩
+  · rw [e2', e2, ← hres c hc.1]; exact h1
+  · obtain ⟨hl, hlast⟩ := h2 hno
+    refine ⟨by omega, ?_⟩
+    rw [e2', ← hres c hc.1]; exact hlast
+  · obtain ⟨hl, p1, c0', p2, hsplit, hs0, hbefore, hlast⟩ := h3 hex
+    refine ⟨by omega, p1, c0', p2, hsplit, hs0, hbefore, ?_⟩
+    rw [e2']; exact hlast
+
+/-- what the stored result is in terms of `f`: for an entry stored on behalf of a valid call `x` through a stack whose layers
+above the cache are `above`, it is what `f` returns on `x` -/
+theorem stored_result_is_f (s : Sig) (body : PDict → Res Val) (K : List Cls) (above : List (Cls × PDict))
+    (hK : Within K above) (x : Call) (v : Val) (h : ValidFor K s body x v) :
+    Except.ok (resultOf s body (reach s above x)) = applyFn s body x := by
+  rw [(ValidFor.reach above hK h).resultOf_eq, h.ok]
+
+/-- **The cache survives re-wrapping**: a history `pre0` through one stack, then - the dict taken over by the constructor
+(`runSteps`) - a history `pre` and a call `c` through ANOTHER stack over the same function.  The calls of both histories, each as
+its own cache layer received it, are the earlier calls. -/
+theorem stack_cache_history_rewrapped (s : Sig) (body : PDict → Res Val) (unh : Call → Bool) (p0 p : PDict)
+    (above0 below0 above below : List (Cls × PDict))
+    (ha0 : noCache above0) (hb0 : noCache below0) (ha : noCache above) (hb : noCache below)
+    (pre0 pre : List Call) (c : Call)
+    (hpre0 : ∀ x ∈ pre0, HistCallFor (classes (above0 ++ (Cls.cache, p0) :: below0)) s body unh above0 x)
+    (hpre : ∀ x ∈ pre, HistCallFor (classes (above ++ (Cls.cache, p) :: below)) s body unh above x)
+    (hc : HistCallFor (classes (above ++ (Cls.cache, p) :: below)) s body unh above c) :
+    let chain := above ++ (Cls.cache, p) :: below
+    let seen := reach s above
+    let st0 := (runH s body unh (above0 ++ (Cls.cache, p0) :: below0) {} pre0).1
+    let hist := pre0.map (reach s above0) ++ pre.map seen
+    let r := runH s body unh chain st0 pre
+    let r' := runH s body unh chain st0 (pre ++ [c])
+    r'.2 = r.2 ++ [r'.2.getLast?.getD (applyFn s body c)] ∧
+    ((∀ y ∈ hist, ¬ sameComb y (seen c)) →
+      r'.1.evals.length = r.1.evals.length + 1 ∧ r'.2.getLast? = some (applyFn s body c)) ∧
+    ((∃ y ∈ hist, sameComb y (seen c)) →
+      r'.1.evals.length = r.1.evals.length ∧
+      ∃ h1 y0 h2, hist = h1 ++ y0 :: h2 ∧ sameComb y0 (seen c) ∧
+        (∀ y ∈ h1, ¬ sameComb y (seen c)) ∧ r'.2.getLast? = some (.ok (resultOf s body y0))) := by
+  intro chain seen st0 hist r r'
+  have hK0a : Within (classes (above0 ++ (Cls.cache, p0) :: below0)) above0 :=
+    fun w hw => within_classes _ w (by simp [hw])
+  have hK0b : Within (classes (above0 ++ (Cls.cache, p0) :: below0)) below0 :=
+    fun w hw => within_classes _ w (by simp [hw])
+  obtain ⟨hcache, _, _⟩ := runH_refines_for _ s body unh p0 above0 below0 ha0 hb0 hK0a hK0b pre0 {} {} rfl
+    (fun x hx => ⟨(hpre0 x hx).1, (hpre0 x hx).2.1⟩)
+  have h0 : CacheHolds (resultOf s body) st0.cache (pre0.map (reach s above0)) := by
+    show CacheHolds (resultOf s body) (runH s body unh (above0 ++ (Cls.cache, p0) :: below0) {} pre0).1.cache _
+    rw [hcache]
+    exact cacheHolds_of_runCache (resultOf s body) (pre0.map (reach s above0))
+  exact stack_cache_history_from s body unh p above below ha hb st0 (pre0.map (reach s above0)) h0
+    (by intro y hy; obtain ⟨x, hx, rfl⟩ := List.mem_map.1 hy; exact (hpre0 x hx).2.2) pre c hpre hc
+
+
+/-- `stack_cache_unhashable_call` with the hypotheses conditional on the classes of the stack -/
+theorem stack_cache_unhashable_call_sharp (s : Sig) (body : PDict → Res Val) (unh : Call → Bool) (p : PDict)
+    (above below : List (Cls × PDict)) (ha : noCache above) (hb : noCache below) (st : HSt) (c : Call) (v : Val)
+    (h : ValidFor (classes (above ++ (Cls.cache, p) :: below)) s body c v) (hu : unh (reach s above c) = true) :
+    let r := evalH s body unh (above ++ (Cls.cache, p) :: below) st c
+    r.2 = applyFn s body c ∧ r.1.cache = st.cache ∧ r.1.evals.length = st.evals.length + 1 := by
+  intro r
+  have hKa : Within (classes (above ++ (Cls.cache, p) :: below)) above :=
+    fun w hw => within_classes _ w (by simp [hw])
+  have hKb : Within (classes (above ++ (Cls.cache, p) :: below)) below :=
+    fun w hw => within_classes _ w (by simp [hw])
+  have := evalH_through_unh_for _ s body unh p below hb hKb above st c v ha hKa h hu
+  refine ⟨by rw [show r = _ from this, h.ok], by rw [show r = _ from this], by rw [show r = _ from this]; simp⟩
+
+/-- **Histories with hashable AND unhashable calls (finding K5 woven into the history statement).**  Any stack
+`above ++ cache :: below`, any history `pre` of valid calls of a non-raising `f` - each hashable or not for the cache layer -
+and any next valid call `c`:
+* `c` unhashable: one more execution, the reply is `f c`, the dict is untouched;
+* `c` hashable: what `stack_cache_history_sharp` says, with the HASHABLE earlier calls as the earlier calls - unhashable calls
+  before it, however many, neither answer it nor make it evaluated again. -/
+theorem stack_cache_history_mixed (s : Sig) (body : PDict → Res Val) (unh : Call → Bool) (p : PDict)
+    (above below : List (Cls × PDict)) (ha : noCache above) (hb : noCache below)
+    (pre : List Call) (c : Call)
+    (hpre : ∀ x ∈ pre, (∃ v, ValidFor (classes (above ++ (Cls.cache, p) :: below)) s body x v) ∧
+      (unh (reach s above x) = false → Call.ok (reach s above x)))
+    (hc : ∃ v, ValidFor (classes (above ++ (Cls.cache, p) :: below)) s body c v)
+    (hcok : unh (reach s above c) = false → Call.ok (reach s above c)) :
+    let chain := above ++ (Cls.cache, p) :: below
+    let seen := reach s above
+    let hashable := pre.filter fun x => !unh (seen x)
+    let r := runH s body unh chain {} pre
+    let r' := runH s body unh chain {} (pre ++ [c])
+    r'.2 = r.2 ++ [r'.2.getLast?.getD (applyFn s body c)] ∧
+    (unh (seen c) = true →
+      r'.1.evals.length = r.1.evals.length + 1 ∧ r'.2.getLast? = some (applyFn s body c) ∧ r'.1.cache = r.1.cache) ∧
+    (unh (seen c) = false →
+      ((∀ x ∈ hashable, ¬ sameComb (seen x) (seen c)) →
+        r'.1.evals.length = r.1.evals.length + 1 ∧ r'.2.getLast? = some (applyFn s body c)) ∧
+      ((∃ x ∈ hashable, sameComb (seen x) (seen c)) →
+        r'.1.evals.length = r.1.evals.length ∧
+        ∃ pre1 c0 pre2, hashable = pre1 ++ c0 :: pre2 ∧ sameComb (seen c0) (seen c) ∧
+          (∀ x ∈ pre1, ¬ sameComb (seen x) (seen c)) ∧ r'.2.getLast? = some (applyFn s body c0))) := by
+  intro chain seen hashable r r'
+  have hKa : Within (classes (above ++ (Cls.cache, p) :: below)) above :=
+    fun w hw => within_classes _ w (by simp [hw])
+  have hKb : Within (classes (above ++ (Cls.cache, p) :: below)) below :=
+    fun w hw => within_classes _ w (by simp [hw])
+  have happ : r' = ((evalH s body unh chain r.1 c).1, r.2 ++ [(evalH s body unh chain r.1 c).2]) := by
+    show runH s body unh chain {} (pre ++ [c]) = _
+    rw [runH_append]; simp [runH]; exact ⟨rfl, rfl, rfl⟩
+  have hlast : r'.2.getLast? = some (evalH s body unh chain r.1 c).2 := by rw [happ]; simp
+  have h1 : r'.2 = r.2 ++ [r'.2.getLast?.getD (applyFn s body c)] := by rw [hlast]; rw [happ]; simp
+  refine ⟨h1, fun hu => ?_, fun hu => ?_⟩
+  · obtain ⟨v, hv⟩ := hc
+    have e := evalH_through_unh_for _ s body unh p below hb hKb above r.1 c v ha hKa hv hu
+    have e' : evalH s body unh chain r.1 c = _ := e
+    refine ⟨by rw [happ, e']; simp, by rw [hlast, e', hv.ok], by rw [happ, e']⟩
+  · have hcache := runH_cache_mixed_for _ s body unh p above below ha hb hKa hKb pre {} {} rfl (fun x hx => (hpre x hx).1)
+    have h0 : CacheHolds (resultOf s body) r.1.cache (hashable.map seen) := by
+      show CacheHolds (resultOf s body) (runH s body unh chain {} pre).1.cache _
+      rw [show (runH s body unh chain {} pre).1.cache = _ from hcache]
+      exact cacheHolds_of_runCache (resultOf s body) _
+    have hmemh : ∀ x ∈ hashable, x ∈ pre ∧ unh (seen x) = false := by
+      intro x hx
+      have := List.mem_filter.1 hx
+      exact ⟨this.1, by simpa using this.2⟩
+    have hok0 : ∀ y ∈ hashable.map seen, Call.ok y := by
+      intro y hy
+      obtain ⟨x, hx, rfl⟩ := List.mem_map.1 hy
+      exact (hpre x (hmemh x hx).1).2 (hmemh x hx).2
+    obtain ⟨_, g2, g3⟩ := stack_cache_history_from s body unh p above below ha hb r.1 (hashable.map seen) h0 hok0 [] c
+      (by intro x hx; simp at hx) ⟨hc, hu, hcok hu⟩
+    simp only [List.map_nil, List.append_nil, List.nil_append, runH] at g2 g3
+    have e1 : (evalH s body unh (above ++ (Cls.cache, p) :: below) r.1 c).1 = r'.1 := by rw [happ]
+    have e2 : [(evalH s body unh (above ++ (Cls.cache, p) :: below) r.1 c).2].getLast? = r'.2.getLast? := by
+      rw [hlast]; simp; rfl
+    rw [e1, e2] at g2 g3
+    refine ⟨fun hno => g2 (by
+      intro y hy; obtain ⟨x, hx, rfl⟩ := List.mem_map.1 hy; exact hno x hx), fun ⟨x, hx, hs⟩ => ?_⟩
+    obtain ⟨hl, p1, y0, p2, hsplit, hs0, hbefore, hrep⟩ := g3 ⟨seen x, List.mem_map.2 ⟨x, hx, rfl⟩, hs⟩
+    obtain ⟨l1, l2, hpre12, hm1, hm2⟩ := List.map_eq_append_iff.1 hsplit
+    obtain ⟨c0, l2', hl2, hc0, hm2'⟩ := List.map_eq_cons_iff.1 hm2
+    subst hl2 hc0 hm1
+    have hc0mem : c0 ∈ hashable := by rw [hpre12]; simp
+    obtain ⟨v0, hv0⟩ := (hpre c0 (hmemh c0 hc0mem).1).1
+    refine ⟨hl, l1, c0, l2', hpre12, hs0, fun y hy => hbefore (seen y) (List.mem_map.2 ⟨y, hy, rfl⟩), ?_⟩
+    rw [hrep, stored_result_is_f s body _ above hKa c0 v0 hv0]
+
+/-- non-vacuity: `try_none(cache(f))`; `g(1)`, `g(array)`, `g(array)`, `g(1)`: the array calls are executed each time
+(3 executions in all), the last call is answered from the dict -/
+example :
+    let s : Sig := { params := ["a"], defaults := [], varargs := none, varkw := none }
+    let chain : List (Cls × PDict) := [(.tryValue, []), (.cache, [])]
+    let c1 : Call := { args := [.cell (.int 1)], kw := [] }
+    let ca : Call := { args := [.cell (.str "~arr:f:1,2")], kw := [] }
+    (runH s recBody Call.hasArr chain {} [c1, ca, ca, c1]).1.evals.length = 3 ∧
+    (runH s recBody Call.hasArr chain {} [c1, ca, ca, c1]).2 = [applyFn s recBody c1, applyFn s recBody ca, applyFn s recBody ca, applyFn s recBody c1] := by
+  refine ⟨by decide +kernel, by decide +kernel⟩
+
+/-- non-vacuity of `stack_cache_history_rewrapped`: `g1 = cache(f); g1(1); g2 = cache(try_none(g1)); g2(1)` - the second stack
+is `cache :: try_value`, the dict is g1's: `f` is not executed again -/
+example :
+    let s : Sig := { params := ["a"], defaults := [], varargs := none, varkw := none }
+    let c1 : Call := { args := [.cell (.int 1)], kw := [] }
+    let st0 := (runH s recBody Call.hasArr [(.cache, [])] {} [c1]).1
+    (mk .cache [] (mk .tryValue [] { chain := [(.cache, [])], base := 0 })).chain = [(.cache, []), (.tryValue, [])] ∧
+    st0.evals.length = 1 ∧
+    (runH s recBody Call.hasArr [(.cache, []), (.tryValue, [])] st0 [c1]).1.evals.length = 1 ∧
+    (runH s recBody Call.hasArr [(.cache, []), (.tryValue, [])] st0 [c1]).2 = [applyFn s recBody c1] := by
+  refine ⟨by decide +kernel, by decide +kernel, by decide +kernel, by decide +kernel⟩
+
+
+/-! ### the remaining history variants with the conditional hypotheses -/
+
+/-- `stack_cache_history_as_passed` with the hypotheses conditional on the classes of the stack -/
+theorem stack_cache_history_as_passed_sharp (s : Sig) (body : PDict → Res Val) (unh : Call → Bool) (p : PDict)
+    (above below : List (Cls × PDict)) (ha : noCache above) (hb : noCache below) (hl : Cls.loops ∉ classes above)
+    (pre : List Call) (c : Call)
+    (hpre : ∀ x ∈ pre, (∃ v, ValidFor (classes (above ++ (Cls.cache, p) :: below)) s body x v) ∧ unh x = false ∧ Call.ok x)
+    (hc : (∃ v, ValidFor (classes (above ++ (Cls.cache, p) :: below)) s body c v) ∧ unh c = false ∧ Call.ok c) :
+    let chain := above ++ (Cls.cache, p) :: below
+    let r := runH s body unh chain {} pre
+    let r' := runH s body unh chain {} (pre ++ [c])
+    ((∀ x ∈ pre, ¬ sameComb x c) →
+      r'.1.evals.length = r.1.evals.length + 1 ∧ r'.2.getLast? = some (applyFn s body c)) ∧
+    ((∃ x ∈ pre, sameComb x c) →
+      r'.1.evals.length = r.1.evals.length ∧
+      ∃ pre1 c0 pre2, pre = pre1 ++ c0 :: pre2 ∧ sameComb c0 c ∧
+        (∀ x ∈ pre1, ¬ sameComb x c) ∧ r'.2.getLast? = some (applyFn s body c0)) := by
+  have hKa : Within (classes (above ++ (Cls.cache, p) :: below)) above :=
+    fun w hw => within_classes _ w (by simp [hw])
+  have hseen : ∀ x, (∃ v, ValidFor (classes (above ++ (Cls.cache, p) :: below)) s body x v) → reach s above x = x := by
+    rintro x ⟨v, h⟩
+    exact reach_eq_self_for above hKa h hl
+  have hpre' : ∀ x ∈ pre, HistCallFor (classes (above ++ (Cls.cache, p) :: below)) s body unh above x := by
+    intro x hx
+    obtain ⟨h1, h2, h3⟩ := hpre x hx
+    exact ⟨h1, by rw [hseen x h1]; exact h2, by rw [hseen x h1]; exact h3⟩
+  have hc' : HistCallFor (classes (above ++ (Cls.cache, p) :: below)) s body unh above c :=
+    ⟨hc.1, by rw [hseen c hc.1]; exact hc.2.1, by rw [hseen c hc.1]; exact hc.2.2⟩
+  obtain ⟨_, h2, h3⟩ := stack_cache_history_sharp s body unh p above below ha hb pre c hpre' hc'
+  simp only [hseen c hc.1] at h2 h3
+  refine ⟨fun hno => h2 fun x hx => by rw [hseen x (hpre x hx).1]; exact hno x hx, fun ⟨x, hx, hs⟩ => ?_⟩
+  obtain ⟨hlen, pre1, c0, pre2, hsplit, hs0, hbefore, hlast⟩ := h3 ⟨x, hx, by rw [hseen x (hpre x hx).1]; exact hs⟩
+  have hc0 : c0 ∈ pre := by rw [hsplit]; simp
+  refine ⟨hlen, pre1, c0, pre2, hsplit, by rw [← hseen c0 (hpre c0 hc0).1]; exact hs0, fun y hy => ?_, hlast⟩
+  have hym : y ∈ pre := by rw [hsplit]; simp [hy]
+  rw [← hseen y (hpre y hym).1]; exact hbefore y hy
+
+/-- `stack_cache_history_all` with the hypotheses conditional on the classes of the stack -/
+theorem stack_cache_history_all_sharp (s : Sig) (body : PDict → Res Val) (unh : Call → Bool) (p : PDict)
+    (above below : List (Cls × PDict)) (ha : noCache above) (hb : noCache below)
+    (calls : List Call)
+    (hcalls : ∀ x ∈ calls, (∃ v, ValidFor (classes (above ++ (Cls.cache, p) :: below)) s body x v) ∧
+      unh (reach s above x) = false) :
+    let seen := reach s above
+    let r := runH s body unh (above ++ (Cls.cache, p) :: below) {} calls
+    (∀ (i : Nat) (c : Call), calls[i]? = some c →
+      ∃ pre1 c0 pre2, calls = pre1 ++ c0 :: pre2 ∧ callKey (seen c0) = callKey (seen c) ∧
+        (∀ x ∈ pre1, callKey (seen x) ≠ callKey (seen c)) ∧ r.2[i]? = some (applyFn s body c0)) ∧
+    ∃ keys : List Val, keys.Nodup ∧ (∀ k, k ∈ keys ↔ k ∈ calls.map fun c => callKey (seen c)) ∧
+      r.1.evals.length = keys.length := by
+  intro seen r
+  have hKa : Within (classes (above ++ (Cls.cache, p) :: below)) above :=
+    fun w hw => within_classes _ w (by simp [hw])
+  have hKb : Within (classes (above ++ (Cls.cache, p) :: below)) below :=
+    fun w hw => within_classes _ w (by simp [hw])
+  obtain ⟨_, hr2, hr3⟩ := runH_refines_for _ s body unh p above below ha hb hKa hKb calls {} {} rfl hcalls
+  simp only [List.length_nil, Nat.add_zero, Nat.zero_add] at hr3
+  obtain ⟨hnd, hkeys, hrep⟩ := cache_once (resultOf s body) (calls.map seen)
+  refine ⟨fun i c hi => ?_, ⟨_, hnd, fun k => by rw [hkeys k, List.map_map]; rfl, hr3⟩⟩
+  have e2 : r.2 = (runCache (fun c => Except.ok (resultOf s body c)) {} (List.map seen calls)).2 := hr2
+  have hmem : c ∈ calls := List.mem_of_getElem? hi
+  cases hf : firstWith (calls.map seen) (callKey (seen c)) with
+  | none =>
+    rw [firstWith_none_iff] at hf
+    exact absurd (List.mem_map.2 ⟨seen c, List.mem_map.2 ⟨c, hmem, rfl⟩, rfl⟩) hf
+  | some c0' =>
+    simp only [firstWith] at hf
+    obtain ⟨hk0, p1, p2, hsplit, hbefore⟩ := List.find?_eq_some_iff_append.1 hf
+    obtain ⟨l1, l2, hc12, hm1, hm2⟩ := List.map_eq_append_iff.1 hsplit
+    obtain ⟨c0, l2', hl2, hc0, _⟩ := List.map_eq_cons_iff.1 hm2
+    subst hl2 hc0 hm1
+    have hc0mem : c0 ∈ calls := by rw [hc12]; simp
+    have hk0' : callKey (seen c0) = callKey (seen c) := by simpa using hk0
+    have hnot1 : ∀ y ∈ l1, callKey (seen y) ≠ callKey (seen c) := by
+      intro y hy
+      have := hbefore (seen y) (List.mem_map.2 ⟨y, hy, rfl⟩)
+      simpa using this
+    refine ⟨l1, c0, l2', hc12, hk0', hnot1, ?_⟩
+    rw [e2, hrep]
+    simp only [List.map_map, List.getElem?_map, hi, Option.map_some, Function.comp]
+    have : firstWith (List.map seen calls) (callKey (seen c)) = some (seen c0) := by
+      simp only [firstWith]; exact hf
+    rw [this]
+    obtain ⟨v, hv⟩ := (hcalls c0 hc0mem).1
+    simp only [Option.getD_some]
+    rw [(ValidFor.reach above hKa hv).resultOf_eq, hv.ok]
+
 end Pyg.Props.C18
